@@ -200,6 +200,18 @@ pub fn c15_case(cfg: &Cfg, rep: &mut Report, case_seed: u64, cli: &str, dir: &Pa
             args.push("--heu".into());
             args.push(h.into());
         }
+        // logging options must not change what is printed on stdout
+        match rng.below(12) {
+            0 => args.push("-v".into()),
+            1 => args.push("-vv".into()),
+            2 => args.push("-vvv".into()),
+            3 => args.push("-q".into()),
+            4 => {
+                args.push("--rust_log".into());
+                args.push((*rng.pick(&["debug", "trace", "info", "error"])).to_string());
+            }
+            _ => {}
+        }
         // model counting output (naive and hybrid mode only): one extra first line
         let counter = lib != "biodivine" && rng.chance(1, 4);
         if counter {
@@ -462,8 +474,19 @@ fn c14cli_case(cfg: &Cfg, rep: &mut Report, case_seed: u64, cli: &str, dir: &Pat
     rep.evaluations += 1;
     let file = dir.join(format!("c14-{}.adf", case_seed));
     std::fs::write(&file, &case.text).expect("write");
-    let export = dir.join(format!("c14-{}.json", case_seed));
-    let _ = std::fs::remove_file(&export);
+    // the export goes into a directory that already holds other files with related names (earlier exports,
+    // backups, temporary files of other jobs): none of them may be touched
+    let exdir = dir.join(format!("c14-{}-exports", case_seed));
+    let _ = std::fs::remove_dir_all(&exdir);
+    std::fs::create_dir_all(&exdir).expect("create export dir");
+    let export = exdir.join("run.json");
+    let decoys: Vec<(PathBuf, Vec<u8>)> = ["run.tmp", "run.json.tmp", "run.json~", "run.json.bak", ".run.json.swp", "run.json.part", "run.json.new", "run", "tmp", "run.JSON", "run.json.1"]
+        .iter()
+        .map(|n| (exdir.join(n), format!("DECOY {} of another job\n", n).into_bytes()))
+        .collect();
+    for (p, c) in &decoys {
+        std::fs::write(p, c).expect("write decoy");
+    }
     let sortflag = *rng.pick(&["", "--lx", "--an"]);
     let sem: Vec<String> = ["--grd", "--com", "--stm", "--stmng"].iter().map(|s| s.to_string()).collect();
     let mut direct: Vec<String> = vec!["--lib".into(), "naive".into()];
@@ -485,6 +508,17 @@ fn c14cli_case(cfg: &Cfg, rep: &mut Report, case_seed: u64, cli: &str, dir: &Pat
         rep.violation("cli-export-failed", format!("exit {:?}, export file exists: {}; stderr {}", o1.code, export.exists(), o1.stderr.chars().take(300).collect::<String>()), replay);
         return;
     }
+    for (p, c) in &decoys {
+        if std::fs::read(p).ok().as_ref() != Some(c) {
+            rep.violation(
+                "cli-export-touches-other-file",
+                format!("--export {} modified or removed the unrelated existing file {}", export.display(), p.file_name().unwrap().to_string_lossy()),
+                replay,
+            );
+            return;
+        }
+    }
+    rep.count("decoy_files_checked", decoys.len() as u64);
     // oracle check of the direct output (grounded first line)
     let rec = oracle::grammar::recognise(&case.text).expect("valid");
     let _ = rec;
@@ -601,5 +635,6 @@ fn c14cli_case(cfg: &Cfg, rep: &mut Report, case_seed: u64, cli: &str, dir: &Pat
     for f in [&file, &export, &sentinel, &link] {
         let _ = std::fs::remove_file(f);
     }
+    let _ = std::fs::remove_dir_all(&exdir);
     let _ = show_vals;
 }
